@@ -2,6 +2,7 @@ package props
 
 // Registry maps a property id to its check.
 var Registry = map[string]func(tier, replay string) int{
+	"C01": RunC01,
 	"C02": RunC02,
 	"C03": RunC03,
 	"C06": RunC06,
